@@ -5,6 +5,7 @@
 //  asm     : the real SymbolicAssembler (through a stand-in space with arbitrary DOF tables) + real CSR scatter
 //  fe      : real assemblers on real meshes/spaces (all routes, everything the oracle needs)  -> fe.hpp
 //  ops     : every operator / functional class of common_operators.hpp / common_functionals.hpp -> ops.hpp
+//  trace3  : TraceAssembler in 3-D on meshes with permuted facet vertex orders; trpt: one facet point -> trace3d.cpp
 //  trace   : TraceAssembler facet selection (add_facet / compile / clear) -> trace_quad.cpp
 //  bg/bgsd : Burgers operator, classic assembler and domain-assembler jobs (blocked and scalar) -> burgers.hpp
 //  ferec   : only what the real cell loop hands to the scatter object (first call of the process)
@@ -15,7 +16,7 @@
 #include "ops.hpp"
 #include <kernel/lafem/sparse_matrix_banded.hpp>
 
-namespace c16 { void trace_quad(verif::Cur& c, std::ostream& o); }
+namespace c16 { void trace_quad(verif::Cur& c, std::ostream& o); void trace3(verif::Cur& c, std::ostream& o, bool point); }
 using namespace FEAT;
 using namespace c16;
 using verif::Cur;
@@ -296,6 +297,8 @@ static void handle(const verif::Tokens& t, std::ostream& o)
   }
   else if(op == "trace")
     trace_quad(c, o);
+  else if(op == "trace3" || op == "trpt")
+    trace3(c, o, op == "trpt");
   else if(op == "ops")
   {
     std::string shape = c.str();
